@@ -71,12 +71,55 @@ static void lst_make_sequence(vp_rng_t* r, int mode, uint64_t idx, seq_t* s)
     int udp = mode >= 2;
     size_t cfo = udp ? 4 : 0;
     const char* name = "?";
+    if (idx % 41 == 17) {                 /* soak: more than 256 valid packets through one listener instance, every one must come out */
+        for (int d = 0; d < MAX_DGRAMS; d++) {
+            uint8_t b[DGRAM_MAX]; memset(b, 0, sizeof b);
+            int k = 1 + (int)vp_rng_below(r, 3);
+            size_t n = build_valid(r, mode, b, (int)(vp_rng_next(r) & 1), k, 64);
+            if (udp) Avtp_Udp_SetEncapsulationSeqNo((Avtp_Udp_t*)b, (uint32_t)d);
+            seq_add(s, b, n);
+            s->expect_p1[d] = (uint8_t)(1 + k);
+        }
+        s->repeat = 40;
+        snprintf(s->tmpl, sizeof s->tmpl, "soak-valid-packets");
+        return;
+    }
     for (int d = 0; d < nd; d++) {
         uint8_t b[DGRAM_MAX]; memset(b, 0, sizeof b);
         int tscf = (int)(vp_rng_next(r) & 1);
         size_t acfo = cfo + (tscf ? 24 : 12);
         size_t n = build_valid(r, mode, b, tscf, 1 + (int)vp_rng_below(r, 5), 64);
-        uint64_t t = (idx + (uint64_t)d * 7) % 24;
+        uint64_t t = (idx + (uint64_t)d * 7) % 26;
+        if (t == 24 || t == 25) {            /* well-formed chain that ends 1..15 bytes before the end of a (nearly) full-size datagram, then a fragment of an ACF-CAN header */
+            name = "chain-to-end-plus-header-fragment";
+            size_t T = 1500 - 4 * (1 + (size_t)vp_rng_below(r, 3)) - (t == 25 ? 4 * (size_t)vp_rng_below(r, 3) : 0);     /* chain end: 1476..1496 */
+            size_t o = acfo;
+            memset(b, 0, sizeof b);
+            if (udp) { Avtp_Udp_Init((Avtp_Udp_t*)b); }
+            if (tscf) Avtp_Tscf_Init((Avtp_Tscf_t*)(b + cfo)); else Avtp_Ntscf_Init((Avtp_Ntscf_t*)(b + cfo));
+            while (o < T) {
+                size_t left = T - o, sz = 0;                     /* message sizes 16/20/24 (payload 0/4/8) that add up exactly */
+                static const size_t cand[3] = { 24, 20, 16 };
+                for (int ci = 0; ci < 3 && !sz; ci++) {
+                    if (cand[ci] > left) continue;
+                    size_t rem = left - cand[ci];
+                    if (rem == 0 || rem == 16 || rem == 20 || rem == 24 || rem >= 32) sz = cand[ci];
+                }
+                if (!sz) break;
+                uint8_t pl[8]; vp_rng_fill(r, pl, 8);
+                Avtp_Can_t* c = (Avtp_Can_t*)(b + o);
+                Avtp_Can_Init(c);
+                Avtp_Can_CreateAcfMessage(c, (uint32_t)vp_rng_next(r) & 0x7ff, pl, (uint16_t)(sz - 16), (mode & 1) ? AVTP_CAN_FD : AVTP_CAN_CLASSIC);
+                o += sz;
+            }
+            size_t frag = 1 + (size_t)vp_rng_below(r, 1500 - o < 15 ? 1500 - o : 15);
+            vp_rng_fill(r, b + o, frag);
+            b[o] = (uint8_t)((AVTP_ACF_TYPE_CAN << 1) | (vp_rng_next(r) & 1));
+            n = o + frag;
+            { uint16_t L = (uint16_t)(n - acfo); if (tscf) Avtp_Tscf_SetStreamDataLength((Avtp_Tscf_t*)(b + cfo), L); else Avtp_Ntscf_SetNtscfDataLength((Avtp_Ntscf_t*)(b + cfo), L); }
+            seq_add(s, b, n);
+            continue;
+        }
         if (t >= 22) {                       /* a full-size valid packet, then a datagram that ends inside its control-format header */
             name = "long-valid-then-truncated-header";
             if (d == 0) { n = build_valid(r, mode, b, tscf, 40, 8); }
@@ -148,6 +191,10 @@ static int lst_child(int mode, const seq_t* s)
                 fprintf(stderr, "VP-REPLAY: %ld CAN frames forwarded for a %ld-byte datagram that can hold at most %ld ACF-CAN messages (stale buffer contents parsed)\n", g_frames - before, dlen, room);
                 return 81;
             }
+        }
+        if (!g_in_sentinel && g_seq->expect_p1[g_next - 1] && g_frames - before != (long)g_seq->expect_p1[g_next - 1] - 1) {
+            fprintf(stderr, "VP-LOST: valid packet number %ld of the stream produced %ld CAN frame(s) instead of %d\n", g_fed, g_frames - before, g_seq->expect_p1[g_next - 1] - 1);
+            return EX_LOST;
         }
         if (g_in_sentinel) {
             canid_t id = (mode & 1) ? g_last.fd.can_id : g_last.cc.can_id;
